@@ -8,12 +8,13 @@ namespace ClassWriteFull
 open ClassRead ClassRead.Spec
 
 instance (f : FieldFacts) : Decidable (FieldOk f) :=
-  decidable_of_iff (f.rva = [] ∧ f.ria = [] ∧ f.rvta = [] ∧ f.rita = [] ∧ f.access < 65536 ∧
+  decidable_of_iff (AnnosOk f.rva ∧ AnnosOk f.ria ∧ TypeAnnosOk .field f.rvta ∧ TypeAnnosOk .field f.rita ∧ f.access < 65536 ∧
       f.access &&& maskField = f.access ∧ validUnqualified f.name = true ∧ ∀ a ∈ f.attrs, a.name ∉ fieldAttrNames)
     ⟨fun ⟨a, b, c, d, e, g, h, i⟩ => ⟨a, b, c, d, e, g, h, i⟩, fun h => ⟨h.rva, h.ria, h.rvta, h.rita, h.access, h.mask, h.name, h.unknown⟩⟩
 
 instance (m : MethodFacts) : Decidable (MethodOk m) :=
-  decidable_of_iff (m.code = none ∧ m.rva = [] ∧ m.ria = [] ∧ m.rvta = [] ∧ m.rita = [] ∧ m.annotationDefault = none ∧
+  decidable_of_iff (m.code = none ∧ AnnosOk m.rva ∧ AnnosOk m.ria ∧ TypeAnnosOk .method m.rvta ∧ TypeAnnosOk .method m.rita ∧
+      (∀ v, m.annotationDefault = some v → v.ok ∧ v.depth ≤ 255) ∧
       m.access < 65536 ∧ m.access &&& maskMethod = m.access ∧ validMethodName m.name = true ∧
       (∀ es, m.exceptions = some es → ∀ e ∈ es, validClassName e = true) ∧
       (∀ ps, m.params = some ps → ∀ q ∈ ps, q.flags < 65536 ∧ q.flags &&& maskParam = q.flags ∧
@@ -31,7 +32,7 @@ instance (t : ClassFacts) : Decidable (ClassOk t) :=
       (∀ es, t.innerClasses = some es → ∀ e ∈ es, InnerOk e) ∧
       (∀ em, t.enclosingMethod = some em → validClassName em.1 = true ∧ ∀ nd, em.2 = some nd → validMethodName nd.1 = true) ∧
       (∀ s, t.sourceDebugExtension = some s → Mutf8.Encodable s = true) ∧
-      t.rva = [] ∧ t.ria = [] ∧ t.rvta = [] ∧ t.rita = [] ∧ t.module = none ∧
+      AnnosOk t.rva ∧ AnnosOk t.ria ∧ TypeAnnosOk .cls t.rvta ∧ TypeAnnosOk .cls t.rita ∧ t.module = none ∧
       (∀ c, t.moduleMainClass = some c → validClassName c = true) ∧ (∀ c, t.nestHost = some c → validClassName c = true) ∧
       (∀ cs, t.nestMembers = some cs → ∀ c ∈ cs, validClassName c = true) ∧
       (∀ cs, t.permittedSubclasses = some cs → ∀ c ∈ cs, validClassName c = true) ∧
